@@ -436,11 +436,11 @@ def check_rmw(ctx):
 
 
 # ------------------------------------------------------------------ commit
-def check_commit(ctx, confirm=None):
+def check_commit(ctx, confirm=None, shape=None, suffix=''):
     pat = r'^tx::write_tx::<impl>::commit$'
-    ob = ctx.ob('commit/final', 'BaseTransaction::commit: one batch with the transaction\'s durability; per keyspace the newest entry of every key (first of each run of equal keys), unchanged, '
+    ob = ctx.ob('commit/final' + suffix, 'BaseTransaction::commit: one batch with the transaction\'s durability; per keyspace the newest entry of every key (first of each run of equal keys), unchanged, '
                 'whatever the other keyspaces of the transaction contain; no writes -> no batch', [BASE + 'commit'])
-    SHAPE = (('ks', 2), ('other', 2)) if ctx.tier == 'quick' else (('ks', 3), ('other', 2))
+    SHAPE = shape or ((('ks', 2), ('other', 2)) if ctx.tier == 'quick' else (('ks', 3), ('other', 2)))
     fn = ctx.prog.find(pat)
     env = {}
     ENT = []          # (entry name, keyspace name, index within keyspace)
@@ -863,13 +863,17 @@ def run(ctx):
     check_scans(ctx)
     check_rmw(ctx)
     check_commit(ctx)
+    if ctx.tier != 'quick':
+        # deeper run of equal keys inside one keyspace (four entries: every split of the run into 1..4 keys), and three keyspaces of one entry
+        check_commit(ctx, shape=(('ks', 4), ('other', 1)), suffix='/run-of-4')
+        check_commit(ctx, shape=(('ks', 1), ('other', 1), ('third', 1)), suffix='/three-keyspaces')
     check_rollback_and_wrappers(ctx)
     check_single_writer_helpers(ctx)
     ctx.assumptions += [
         'E2 for the ephemeral memtable (lsm_tree::Memtable): get(key, SeqNo::MAX) returns the entry of that key with the highest seqno; iteration is ordered by key, then seqno descending; '
         'a tree scan handed (memtable, bound) merges the memtable entries with seqno < bound over the snapshot, the highest seqno of a key winning, tombstones hiding the key',
         'the private counter starts at 2^63, above every committed seqno (lsm-tree reserves the MSB range)',
-        'bounds: one step from an arbitrary transaction state with two keyspaces; commit over an ephemeral memtable of 3 entries with symbolic key equalities',
+        'bounds: one step from an arbitrary transaction state with two keyspaces; commit over ephemeral memtables of 2+2 entries (quick), 3+2, 4+1 and 1+1+1 entries (thorough) with symbolic key equalities',
         'the optimistic wrapper additionally records conflict information (C07); WriteBatch::commit applies the batch atomically (C06)',
     ]
     for o in ctx.obligations:
